@@ -49,11 +49,10 @@ Init ==
     /\ ev = [act |-> "reset", by |-> "env", ok |-> TRUE]
     /\ sched = <<>>
 
-Ev(a, by, args) == [act |-> a, by |-> by, args |-> args, ok |-> TRUE, can |-> FALSE]
+Ev(a, by, args) == [act |-> a, by |-> by, args |-> args, ok |-> TRUE, ret |-> TRUE, can |-> FALSE]
 
-\* one call: taken as a real step when the reference guard holds; in Gen mode a call whose guard
-\* is false is a failing call (state unchanged) that still goes into the schedule
-Call(e, action, staleNext) ==
+\* (retFail: what the proxy's entry point returns when the transaction fails; evaluated only then)
+CallR(e, action, staleNext, retFail) ==
   \/ /\ action
      /\ ev' = [e EXCEPT !.ok = TRUE]
      /\ UNCHANGED <<now, cfgv>>
@@ -61,16 +60,20 @@ Call(e, action, staleNext) ==
      /\ stale' = staleNext
      /\ sched' = IF GenMode THEN Append(sched, e) ELSE sched
   \/ /\ GenMode /\ GenFail /\ ~ENABLED action
-     /\ ev' = [e EXCEPT !.ok = FALSE]
+     /\ ev' = [e EXCEPT !.ok = FALSE, !.ret = retFail]
      /\ UNCHANGED <<flavour, admins, mutable, al, perm, now, slack, stale, cfgv>>
      /\ out' = <<>>
      /\ sched' = Append(sched, e)
 
+\* one call: taken as a real step when the reference guard holds; in Gen mode a call whose guard
+\* is false is a failing call (state unchanged) that still goes into the schedule
+Call(e, action, staleNext) == CallR(e, action, staleNext, FALSE)
+
 Ready == ~(GenMode /\ Len(sched) >= GenDepth)
 
 AExecute == Ready /\ \E by \in Callers, ms \in ExecLists :
-  Call([Ev("execute", by, [msgs |-> ms]) EXCEPT !.can = IF Len(ms) = 1 THEN RefCan(by, ms[1]) ELSE FALSE],
-       DoExecute(by, ms), stale)
+  CallR([Ev("execute", by, [msgs |-> ms]) EXCEPT !.can = IF Len(ms) = 1 THEN RefCan(by, ms[1]) ELSE FALSE],
+        DoExecute(by, ms), stale, ENABLED DoRelay(by, ms))
 AFreeze == Ready /\ \E by \in Callers :
   Call(Ev("freeze", by, [x |-> 0]), DoFreeze(by), stale)
 AUpdateAdmins == Ready /\ \E by \in Callers, lst \in AdminArgs :
@@ -87,8 +90,8 @@ ASetPerm == Ready /\ \E by \in Callers, k \in PermKeys, p \in PermArgs :
 
 \* CanExecute{sender,msg} and a dry run of Execute{[msg]} on the same state: nothing changes
 ACanq == Ready /\ \E by \in Callers, m \in ProbeMsgs :
-  LET would == ENABLED DoExecute(by, <<m>>) IN
-  /\ ev' = [act |-> "canq", by |-> by, args |-> [msgs |-> <<m>>], ok |-> would, can |-> RefCan(by, m)]
+  LET would == ENABLED DoRelay(by, <<m>>) IN
+  /\ ev' = [act |-> "canq", by |-> by, args |-> [msgs |-> <<m>>], ok |-> would, ret |-> would, can |-> RefCan(by, m)]
   /\ out' = IF would THEN <<m>> ELSE <<>>
   /\ UNCHANGED <<flavour, admins, mutable, al, perm, now, slack, stale, cfgv>>
   /\ sched' = IF GenMode THEN Append(sched, [ev' EXCEPT !.ok = TRUE]) ELSE sched
@@ -118,7 +121,7 @@ A_C17 == [][C17_AdminWriters /\ C17_AdminExact /\ C17_FrozenForever /\ C17_Grant
 
 \* C16 on the design: the query path and the execute path (written separately, as in the code) agree
 \* on every reachable state for every sender and message
-C16_CanIffExec == \A by \in Callers, m \in ProbeMsgs : RefCan(by, m) <=> ENABLED DoExecute(by, <<m>>)
+C16_CanIffExec == \A by \in Callers, m \in ProbeMsgs : RefCan(by, m) <=> ENABLED DoRelay(by, <<m>>)
 
 TypeOK ==
   /\ admins \subseteq Addr /\ mutable \in BOOLEAN
@@ -149,9 +152,15 @@ FP == M("fund_pool", "none", <<C("d1", 1)>>, "")
 WX == M("wasm_exec", "k1", <<C("d1", 1)>>, "p1")
 IBC == M("ibc_transfer", "a4", <<C("d1", 1)>>, "ch1")
 VOTE == M("vote", "none", <<>>, "1:yes")
+SUA == M("self_update_admins", "proxy", <<>>, "a3")
+SUA0 == M("self_update_admins", "proxy", <<>>, "")
+SFZ == M("self_freeze", "proxy", <<>>, "")
+SINC == M("self_increase", "a3", <<C("d1", 2)>>, "never")
+SSP == M("self_set_perm", "a3", <<>>, "durw")
+MC_Self == {SUA, SUA0, SFZ, SINC, SSP}
 
-MC_Msgs == {S1, S2, SD2, S12, S11, S0, BURN, DEL, UND, RED, WD, SW, FP, WX, IBC, VOTE}
-MC_MsgsGen == MC_Msgs \cup {S3, S21, SZ}
+MC_Msgs == {S1, S2, SD2, S12, S11, S0, BURN, DEL, UND, RED, WD, SW, FP, WX, IBC, VOTE, SUA, SFZ}
+MC_MsgsGen == MC_Msgs \cup {S3, S21, SZ} \cup MC_Self
 Singles(U) == {<<m>> : m \in U}
 Pairs(U) == {<<m, n>> : m \in U, n \in U}
 Triples(U) == {<<m, n, o>> : m \in U, n \in U, o \in U}
@@ -159,7 +168,8 @@ MC_ListsQ == {<<>>} \cup Singles(MC_Msgs) \cup Pairs({S1, S12, DEL, WX}) \cup Tr
              \cup {<<S1, SD2, BURN>>, <<S11, S1>>, <<S2, S1>>}
 MC_ListsT == {<<>>} \cup Singles(MC_MsgsGen) \cup Pairs({S1, S2, SD2, S12, S11, DEL, WD, WX, BURN}) \cup Triples({S1, S12, WD, IBC})
 MC_ListsGen == {<<>>} \cup Singles(MC_MsgsGen) \cup Pairs({S1, S2, SD2, S12, DEL, WX}) \cup Triples({S1, SD2, RED})
-             \cup {<<S1, SD2, BURN>>, <<S11, S1>>, <<S21, S12>>, <<S3, S1>>, <<SZ, S1>>, <<DEL, UND, RED>>, <<WD, SW, FP>>, <<S1, VOTE>>, <<IBC, S1>>}
+             \cup {<<S1, SD2, BURN>>, <<S11, S1>>, <<S21, S12>>, <<S3, S1>>, <<SZ, S1>>, <<DEL, UND, RED>>, <<WD, SW, FP>>, <<S1, VOTE>>, <<IBC, S1>>,
+                <<S1, SUA>>, <<SFZ, SUA0>>, <<SINC, S1>>, <<SSP, DEL>>}
 MC_ListsBfs == Singles({S1, S2, SD2, S12, S11, S21}) \cup Pairs({S1, S12, SD2}) \cup {<<S1, S1, S1>>, <<S1, DEL, SD2>>, <<S11, WD, S1>>}
 
 MC_InitAdmins == {<<"a1", "a2">>}
